@@ -148,7 +148,7 @@ class NPProxy:
             out = _np.empty(a.shape, dtype=object)
             for idx in _np.ndindex(*a.shape):
                 v = a[idx]
-                out[idx] = v.sqrt() if S.is_sym(v) else _np.sqrt(v)
+                out[idx] = v.sqrt() if S.is_sym(v) else _np.sqrt(float(v))
             return out
         if S.is_sym(a):
             return a.sqrt()
